@@ -13,6 +13,10 @@ pub fn max_i32(a: i32, b: i32) -> (r: i32)
     ensures r == (if a >= b { a } else { b }),
 { if a >= b { a } else { b } }
 
+pub fn min_i32(a: i32, b: i32) -> (r: i32)
+    ensures r == (if a <= b { a } else { b }),
+{ if a <= b { a } else { b } }
+
 //@extract type OriginId from src/core/utils.rs
 //@end
 //@extract type Quat from src/core/utils.rs
